@@ -144,6 +144,14 @@ add("C15", "model_checking",
     "bounded-exhaustive differential enumeration of (spelling class, surrounding, value) on the real implementation",
     "DESIGN.md section 5 C15")
 
+add("C08", "model_checking",
+    "All derivation DAGs of <= 4 functions (copy / mixins) x every placement of a list walker (four ways of re-entering: recurse called, "
+    "recurse passed as a value, own name called, own name passed) and of leaf methods x orders of first use x nested inputs, probing "
+    "every node: the result tree (which node's method handled which element) must equal the reference interpreter's.",
+    "Trusted: reference interpreter R5/R6 (vt/c08.py).",
+    "bounded-exhaustive enumeration of derivation graphs x placements x first-use orders on the real implementation vs a reference interpreter",
+    "DESIGN.md section 5 C08")
+
 ALL = [f"C{i:02d}" for i in range(1, 21)]
 REASON_PENDING = "check not built yet in this round (planned: DESIGN.md section 5); not claimed until its machinery exists"
 
